@@ -244,3 +244,29 @@ def label_difference(objA, res, objB, A, B):
         last = [st for st in p if st[0] == "attr"][-1]
         return ["other-table-changed", last[1], last[2]]
     return ["render-differs"]
+
+
+def builder_flags(obj, seen=None, out=None, depth=0):
+    """the with_namespace decisions the builders took while the object was built (_foreign_table of every QueryBuilder
+    reachable, in walk order).  They are computed from a set of Fields whose __eq__/__hash__ collapse same-named columns of
+    different tables, so they can differ between 'built with A' and 'built with B' for reasons unrelated to replace_table."""
+    from pypika.queries import QueryBuilder, Table
+    seen = seen if seen is not None else set()
+    out = out if out is not None else []
+    if depth > 80 or isinstance(obj, (str, bytes, int, float, bool, type(None), type, Table)):
+        return out
+    if isinstance(obj, (list, tuple)):
+        for x in obj:
+            builder_flags(x, seen, out, depth + 1)
+        return out
+    if isinstance(obj, (set, frozenset, dict)):
+        return out
+    d = getattr(obj, "__dict__", None)
+    if isinstance(d, dict) and id(obj) not in seen:
+        seen.add(id(obj))
+        if isinstance(obj, QueryBuilder):
+            out.append(bool(d.get("_foreign_table")))
+        for k_, v in d.items():
+            if k_ not in SKIP_ATTRS:
+                builder_flags(v, seen, out, depth + 1)
+    return out
